@@ -4,3 +4,4 @@
 //! distribution (`stats.json`).
 pub mod common;
 pub mod c13;
+pub mod c15;
